@@ -671,6 +671,16 @@ MUST_RETURN = {'parse-must-not-raise'}
 REUSE_TEXT = '@import "x" screen/*c*/and(; @media screen/*c*/and (color){a{b:1;}} a{c:f(1} b{color:red;;top:1px}'
 REUSE_STYLE = 'b:1;;c:f('
 REUSE_N = 3
+REUSE_VAL = 'a{color:1px;colr:red;top:0}'
+REUSE_VAL_STYLE = 'color:1px;colr:red;top:0'
+PER_CALL = {
+    'parseStyle(validate=False)': lambda q: q.parseStyle(REUSE_VAL_STYLE, validate=False),
+    'parseString(validate=False)': lambda q: q.parseString(REUSE_VAL, validate=False),
+    'parseStyle(encoding)': lambda q: q.parseStyle(REUSE_VAL_STYLE.encode('ascii'), encoding='ascii'),
+    'parseString(encoding,media,title)': lambda q: q.parseString(REUSE_VAL.encode('ascii'), encoding='ascii', media='print', title='t', href='http://e/y.css'),
+    'parseString(bytes-undecodable)': lambda q: q.parseString(UNDEC, encoding='ascii'),
+    'setFetcher': lambda q: (q.setFetcher(_f_ok), q.parseString('@import "i.css";'), q.setFetcher(_f_none)),
+}
 
 
 def battery(collect=None):
@@ -684,6 +694,15 @@ def reuse(collect=None):
         out[f'parseString#{n}'] = _observe(lambda: p.parseString(REUSE_TEXT), collect)
     for n in range(1, REUSE_N + 1):
         out[f'parseStyle#{n}'] = _observe(lambda: p.parseStyle(REUSE_STYLE), collect)
+    # arguments of one call are arguments of that call: afterwards the parser answers like a fresh one
+    for first in PER_CALL:
+        q = cssutils.CSSParser(fetcher=_f_none)
+        _observe(lambda: PER_CALL[first](q), None)
+        out[f'parseString-after:{first}'] = _observe(lambda: q.parseString(REUSE_VAL), collect)
+        out[f'parseStyle-after:{first}'] = _observe(lambda: q.parseStyle(REUSE_VAL_STYLE), collect)
+    q = cssutils.CSSParser(fetcher=_f_none)
+    out['parseString-after:nothing'] = _observe(lambda: q.parseString(REUSE_VAL), collect)
+    out['parseStyle-after:nothing'] = _observe(lambda: q.parseStyle(REUSE_VAL_STYLE), collect)
     return out
 
 
@@ -1004,6 +1023,14 @@ def _self_consistency(res, R):
             for n, v in enumerate(vals[1:], 2):
                 if v != vals[0]:
                     res.violation('C12.reuse', f'clean-process|{kind}|use#{n}-differs-from-use#1', {'history': [NAMES[i] for i in ENV_PREFIX[env]]}, vals[0], v)
+        for kind in ('parseString', 'parseStyle'):
+            want = R.reu(env)[f'{kind}-after:nothing']
+            for first in PER_CALL:
+                res.clauses['C12.reuse.pristine'] += 1
+                if R.reu(env)[f'{kind}-after:{first}'] != want:
+                    res.violation('C12.reuse', f'clean-process|{kind}|differs-after-a-call-with-arguments|{first.split("(")[0]}',
+                                  {'history': [NAMES[i] for i in ENV_PREFIX[env]], 'one parser': [first, kind + '(same text, no arguments)']}, want,
+                                  R.reu(env)[f'{kind}-after:{first}'])
         for name in MUST_RAISE:
             if R.bat(env)[name][0] != 'exc':
                 res.error(f'probe {name} does not raise in a clean process: {R.bat(env)[name]}')
